@@ -128,6 +128,15 @@ CLAIMED["C14"] = (
     "Trusted: Lean kernel + propext/Classical.choice/Quot.sound; translate/badlines.py; harness/c14.py (generators, canonicalisers, the oracle's reference phrases); json.loads, yaml.load, the format-derived timestamp regex + strptime field extraction and str.lower beyond ASCII are parameters (per-line time fields supplied by the generator, validated by get_after agreement).",
     "DESIGN.md §6 C14")
 
+CLAIMED["C20"] = (
+    "Lean 4 model of the parsr query engine and predicate algebra (two evaluators: interpreted and compiled); theorems by structural and forest induction with the invariants Cut, SubPerm and firstOcc; in-process correspondence with the real Entry/Result/ConfigComponent/Boolean objects on generated forests, parsed nginx documents and boolean expressions, with an independent bottom-up chain oracle",
+    "Proof (all trees, queries, options, values, opaque callables): select = the enumeration of matching chains (select_exact, select_mem_iff), each document occurrence returned at most once; document order for every non-deep query, every single-level deep query and multi-level deep queries whose first-level matches do not nest "
+    "(select_document_order_partial, chained_document_order_partial); the roots loop = first-occurrence de-duplication of the furthest ancestors; find / [] reduce to select; compiled = interp on non-raising expressions (more strongly whenever the compiled body returns, incl. caseless predicates on non-strings — the repaired defect); "
+    "a raise makes the compiled form False and a raising predicate does not match. FALSE of the current code, each with a _partial theorem, a full-statement def and a negation witness replayed on the implementation (known findings): document order for nested deep matches, chained deep search on nested results returns duplicates, roots of parentless nodes are None. "
+    "Tied: 13.5k cases per quick run over 5 streams.",
+    "Trusted: Lean kernel + propext/Classical.choice/Quot.sound; harness/c20.py (generators, adapter observing via len + indexing, token serialisation); opaque callables as a parameter; values restricted to None/int/str; str.lower as an ASCII + Latin-1 table checked per run; where/choose/nth/upto, Result.roots/parents, isin, matches, bool/float values and int/slice indexing are outside the model.",
+    "DESIGN.md §6 C20")
+
 PENDING_REASON = "check not built yet in this round (planned: DESIGN.md §6); no claim is made until its model, theorems and correspondence run exist"
 
 
